@@ -731,7 +731,32 @@ def surfaces():
     return Cos, Sep, Bowl
 
 
+def dwell_surface():
+    """f = (x0^2 - 1)^2 + sum_{i>=1} k_i (x_i - 1/2)^2 on [-2,2] x [0,1]^(d-1): the only index-one saddle is
+    (0, 1/2, ..., 1/2).  Started ON a face of a harmonic coordinate (stationary within that face, downhill
+    into the interior) the search has to leave the face, so a coordinate that was pinned becomes free in
+    the course of one search."""
+    _, _, Potential = imports()
+
+    class Dwell(Potential):
+        def __init__(self, d):
+            self.atomistic = False
+            self.k = np.array([1.0, 2.0, 1.5, 0.75, 1.25][:d - 1])
+
+        def function(self, x):
+            return float((x[0] ** 2 - 1.0) ** 2 + self.k @ (x[1:] - 0.5) ** 2)
+
+        def gradient(self, x):
+            return np.concatenate(([4.0 * x[0] * (x[0] ** 2 - 1.0)], 2.0 * self.k * (x[1:] - 0.5)))
+
+        def hessian(self, x):
+            return np.diag(np.concatenate(([12.0 * x[0] ** 2 - 4.0], 2.0 * self.k)))
+    return Dwell
+
+
 def make_surface(spec: dict):
+    if spec["kind"] == "dwell":
+        return dwell_surface()(spec["d"]), [(-2.0, 2.0)] + [(0.0, 1.0)] * (spec["d"] - 1)
     Cos, Sep, Bowl = surfaces()
     if spec["kind"] == "bowl":
         return Bowl(), [(-1.0, 1.0)] * spec["d"]
@@ -1248,6 +1273,20 @@ def predicates(ctx: Ctx) -> None:
                          (" (search object reused from earlier searches)" if reuse is not None else ""),
                          {"kind": "search", "surface": spec, "x0": x0, "np_seed": seed, "ts_steps": ts_steps,
                           "reused": reuse is not None})
+    # searches started on a face that has to be left (the set of pinned coordinates changes during the search)
+    for d in (3, 3, 4):
+        spec = {"kind": "dwell", "d": d}
+        for k in range(ctx.scale(8, 24)):
+            x0 = [rng.choice((0.0, 0.0, 1e-3, -0.05))] + [rng.choice((0.0, 1.0, 0.5, 1.0)) for _ in range(d - 1)]
+            if all(t == 0.5 for t in x0[1:]):
+                x0[-1] = 1.0
+            seed = rng.randrange(2 ** 31)
+            r = pred_search(spec, x0, seed, 40)
+            ctx.stats.case({"stream": "predicate-search-face-start", "surface": spec, "x0": V(x0)}, True)
+            outcomes["fail" if r else "ok"] = outcomes.get("fail" if r else "ok", 0) + 1
+            if r:
+                ctx.fail(r[0], r[1] + " (search started on a face it has to leave)",
+                         {"kind": "search", "surface": spec, "x0": x0, "np_seed": seed, "ts_steps": 40})
     ctx.stats.notes["predicate_searches"] = outcomes
 
 
